@@ -265,6 +265,9 @@ def direct_calls(case, res):
         n = rng.randint(0, 12)
         which = rng.choice(["task", "worker", "facility", "workplace"])
         names = ["a", "b", "c"]
+        rounds = 1 if rng.random() < 0.5 else rng.randint(2, 3)   # the same objects sorted again after their keys changed
+        if rounds > 1:
+            res.count("C11.resort_after_change_batches")
         if which == "task":
             wf = ns.BaseWorkflow([])
             wf.critical_path_length = rng.choice(vals)
@@ -276,15 +279,25 @@ def direct_calls(case, res):
                 t.state_record_list = [rng.choice([TS.NONE, TS.READY, TS.WORKING]) for _ in range(rng.randint(0, 5))]
                 t.parent_workflow = wf
                 ts.append(t)
-            for rule in TR:
-                inp = list(ts)
-                rng.shuffle(inp)
-                try:
-                    out = ns.pr.sort_task_list(list(inp), rule)
-                except Exception as e:
-                    res.violate("C11", "C11/rule-rejected:task:%s:%s" % (rule.name, type(e).__name__), "direct: sort_task_list(%s) raised %r" % (rule.name, e))
-                    continue
-                chk.check("task", rule, inp, out, {}, "direct")
+            for rd in range(rounds):
+                if rd:
+                    wf.critical_path_length = rng.choice(vals)
+                    for t in ts:
+                        if rng.random() < 0.6:
+                            t.est, t.lst = rng.choice(vals), rng.choice(vals)
+                            t.default_work_amount = rng.choice(vals)
+                            t.remaining_work_amount = rng.choice(vals)
+                        if rng.random() < 0.6:
+                            t.state_record_list.extend(rng.choice([TS.NONE, TS.READY, TS.WORKING]) for _ in range(rng.randint(1, 3)))
+                for rule in TR:
+                    inp = list(ts)
+                    rng.shuffle(inp)
+                    try:
+                        out = ns.pr.sort_task_list(list(inp), rule)
+                    except Exception as e:
+                        res.violate("C11", "C11/rule-rejected:task:%s:%s" % (rule.name, type(e).__name__), "direct: sort_task_list(%s) raised %r" % (rule.name, e))
+                        continue
+                    chk.check("task", rule, inp, out, {}, "direct" if not rd else "direct, sorted again after the keys changed")
         elif which == "worker":
             ws = []
             wpids = ["WPa", "WPb", None]
@@ -292,33 +305,55 @@ def direct_calls(case, res):
                 sk = {nm: rng.choice(vals) for nm in names if rng.random() < 0.7}
                 ws.append(ns.BaseWorker("w%d" % k, cost_per_time=rng.choice(vals), workamount_skill_mean_map=sk,
                                         main_workplace_id=fresh(rng.choice(wpids))))
-            for rule in RR:
-                inp = list(ws)
-                rng.shuffle(inp)
-                kw = dict(name=rng.choice(names))
-                if rng.random() < 0.8:
-                    kw["workplace_id"] = fresh(rng.choice(wpids[:2]))
-                try:
-                    out = ns.pr.sort_worker_list(list(inp), rule, **kw)
-                except Exception as e:
-                    res.violate("C11", "C11/rule-rejected:worker:%s:%s" % (rule.name, type(e).__name__), "direct: sort_worker_list(%s) raised %r" % (rule.name, e))
-                    continue
-                chk.check("worker", rule, inp, out, kw, "direct")
+            for rd in range(rounds):
+                if rd:
+                    for w in ws:
+                        if rng.random() < 0.6:
+                            for nm in names:
+                                if rng.random() < 0.5:
+                                    w.workamount_skill_mean_map[nm] = rng.choice(vals)     # in place
+                        if rng.random() < 0.3:
+                            w.workamount_skill_mean_map = {nm: rng.choice(vals) for nm in names if rng.random() < 0.7}
+                        if rng.random() < 0.5:
+                            w.cost_per_time = rng.choice(vals)
+                        if rng.random() < 0.4:
+                            w.main_workplace_id = fresh(rng.choice(wpids))
+                for rule in RR:
+                    inp = list(ws)
+                    rng.shuffle(inp)
+                    kw = dict(name=rng.choice(names))
+                    if rng.random() < 0.8:
+                        kw["workplace_id"] = fresh(rng.choice(wpids[:2]))
+                    try:
+                        out = ns.pr.sort_worker_list(list(inp), rule, **kw)
+                    except Exception as e:
+                        res.violate("C11", "C11/rule-rejected:worker:%s:%s" % (rule.name, type(e).__name__), "direct: sort_worker_list(%s) raised %r" % (rule.name, e))
+                        continue
+                    chk.check("worker", rule, inp, out, kw, "direct" if not rd else "direct, sorted again after the keys changed")
         elif which == "facility":
             fs = []
             for k in range(n):
                 sk = {nm: rng.choice(vals) for nm in names if rng.random() < 0.7}
                 fs.append(ns.BaseFacility("f%d" % k, cost_per_time=rng.choice(vals), workamount_skill_mean_map=sk))
-            for rule in RR:
-                inp = list(fs)
-                rng.shuffle(inp)
-                kw = dict(name=rng.choice(names))
-                try:
-                    out = ns.pr.sort_facility_list(list(inp), rule, **kw)
-                except Exception as e:
-                    res.violate("C11", "C11/rule-rejected:facility:%s:%s" % (rule.name, type(e).__name__), "direct: sort_facility_list(%s) raised %r" % (rule.name, e))
-                    continue
-                chk.check("facility", rule, inp, out, kw, "direct")
+            for rd in range(rounds):
+                if rd:
+                    for f in fs:
+                        if rng.random() < 0.6:
+                            for nm in names:
+                                if rng.random() < 0.5:
+                                    f.workamount_skill_mean_map[nm] = rng.choice(vals)
+                        if rng.random() < 0.5:
+                            f.cost_per_time = rng.choice(vals)
+                for rule in RR:
+                    inp = list(fs)
+                    rng.shuffle(inp)
+                    kw = dict(name=rng.choice(names))
+                    try:
+                        out = ns.pr.sort_facility_list(list(inp), rule, **kw)
+                    except Exception as e:
+                        res.violate("C11", "C11/rule-rejected:facility:%s:%s" % (rule.name, type(e).__name__), "direct: sort_facility_list(%s) raised %r" % (rule.name, e))
+                        continue
+                    chk.check("facility", rule, inp, out, kw, "direct" if not rd else "direct, sorted again after the keys changed")
         else:
             wps = []
             for k in range(n):
@@ -330,16 +365,29 @@ def direct_calls(case, res):
                 for j in range(rng.randint(0, 2)):
                     wp.placed_component_list.append(ns.BaseComponent("c", space_size=rng.choice([0.5, 1.0])))
                 wps.append(wp)
-            for rule in WR:
-                inp = list(wps)
-                rng.shuffle(inp)
-                kw = dict(name=rng.choice(names))
-                try:
-                    out = ns.pr.sort_workplace_list(list(inp), rule, **kw)
-                except Exception as e:
-                    res.violate("C11", "C11/rule-rejected:workplace:%s:%s" % (rule.name, type(e).__name__), "direct: sort_workplace_list(%s) raised %r" % (rule.name, e))
-                    continue
-                chk.check("workplace", rule, inp, out, kw, "direct")
+            for rd in range(rounds):
+                if rd:
+                    for wp in wps:
+                        if rng.random() < 0.5:
+                            if wp.placed_component_list and rng.random() < 0.5:
+                                wp.placed_component_list.pop()
+                            else:
+                                wp.placed_component_list.append(ns.BaseComponent("c", space_size=rng.choice([0.5, 1.0])))
+                        if rng.random() < 0.3:
+                            wp.max_space_size = rng.choice([1.0, 2.0, 3.0])
+                        for f in wp.facility_list:
+                            if rng.random() < 0.4:
+                                f.workamount_skill_mean_map[rng.choice(names)] = rng.choice(vals)
+                for rule in WR:
+                    inp = list(wps)
+                    rng.shuffle(inp)
+                    kw = dict(name=rng.choice(names))
+                    try:
+                        out = ns.pr.sort_workplace_list(list(inp), rule, **kw)
+                    except Exception as e:
+                        res.violate("C11", "C11/rule-rejected:workplace:%s:%s" % (rule.name, type(e).__name__), "direct: sort_workplace_list(%s) raised %r" % (rule.name, e))
+                        continue
+                    chk.check("workplace", rule, inp, out, kw, "direct" if not rd else "direct, sorted again after the keys changed")
 
 
 def run_case(case):
@@ -361,6 +409,20 @@ def run_case(case):
     finally:
         _current[0] = None
     res.absorb(tr, props=("C11",))
+    if err is None and case["i"] % 4 == 1:
+        # the same objects simulated again after in-place parameter edits, sorts and allocation still monitored
+        import random as _random
+        from . import edits as E
+        from .runner import resimulate
+        er = _random.Random(case["i"] * 31 + 7)
+        spec2, _what = E.edit(er, spec, m, n=er.randint(1, 4))
+        _current[0] = chk
+        try:
+            tr2, err = resimulate(m, spec2, lambda started: [MonInversion(rule)])
+        finally:
+            _current[0] = None
+        res.absorb(tr2, props=("C11",))
+        res.count("C11.sim_runs_after_model_edit")
     res["source"] = "sim"
     res.count("C11.sim_runs")
     res.count("C11.sim_rule.%s" % rule.name)
